@@ -13,6 +13,8 @@
    crossing-number interior used for polygons (C04) is the topological interior of a simple polygon.
    The polygon's exactness is C04's theorem. *)
 From Coq Require Import Reals Lra List ZArith QArith.
+(* the hand-written model functions are equal to the terms translated from the current Go source *)
+From Sdfx Require Sdf.GenEq.
 From Sdfx Require Import Num.Ops Num.RInst Geo.Vec Geo.Box Geo.BoxR Geo.NormR Geo.Mat
   Sdf.Union2 Sdf.Union2R Sdf.Shape Sdf.ShapeR Sdf.LipR Sdf.ConeR Sdf.LipTreeR Sdf.RotCopyR Sdf.ExactR Sdf.C03Refute.
 Import ListNotations.
